@@ -17,6 +17,14 @@ def request_for(o):
 def find(ctx, oblig, diag):
     g = _gen()
     M = g.model_ops(ctx["repo"])
+    m = re.search(r"route\.(\w+)\.body_is_buffered_iff_decoding_needs_it$", oblig)
+    if m and m.group(1) in M:
+        x = m.group(1); r = request_for(M[x])
+        body = "{}" if x == "PutBucketPolicy" else ""
+        if not body: return None      # XML documents of the other operations are not built here
+        res = ctx["replay_tool"](["wire-stream", r[0], r[1], body] + r[2:])
+        res["source"] = "the operation's minimal request with a streaming (framed) body, no authentication provider"
+        return res
     m = re.search(r"C01:route\.(\w+)$", oblig)
     if m and m.group(1) in M:
         x = m.group(1)
